@@ -108,7 +108,7 @@ def runHist (j : Lean.Json) : Except String Lean.Json := do
         let funcs' := funcs.map fun f =>
           { f with stmts := f.stmts }
         let verOf := lookupVersion versions
-        let prog := denoteFunc verOf (funcs'.size + 1) funcs' rootIdx arg (.obj [])
+        let prog := denoteFunc verOf (funcs'.size + 1) funcs' rootIdx none arg (.obj [])
         let out := Spec.build w cf name prog failFiles failSubs abort
         w := out.world
         let kout := Impl.build kw cf name versions prog failFiles failSubs abort
